@@ -83,7 +83,8 @@ Enums ==
     \cup {Enum(r, <<VarD("5", <<>>), VarD("10", <<>>)>>) : r \in {"u8", "u16", "u32"}}
     \cup {Enum(r, <<VarD("1", <<>>), VarD("0", <<>>)>>) : r \in {"u8"}}
     \cup {BigEnum("", 256), BigEnum("", 257)}
-    \cup (IF Tier = "thorough" THEN {BigEnum("", 65536), BigEnum("", 65537), BigEnum("u8", 256), BigEnum("u16", 257)} ELSE {})
+    \* (the 65536 / 65537-variant enums of the u16 -> u32 tag switch are NOT generated: rustc needs > 60 GB for the derive output)
+    \cup (IF Tier = "thorough" THEN {BigEnum("u8", 256), BigEnum("u16", 257)} ELSE {})
 
 Composites == (IF Tier = "thorough" THEN StructsT ELSE StructsQ) \cup Enums
 SmallComposites == {c \in Composites : c.n = 0 /\ Len(c.ts) <= 2}
